@@ -54,6 +54,10 @@ def systems(tier):
     # declared cyclic molecules: the ring closing residue has a second positioned bonded neighbour
     out.append(dict(types=["RING4"], molecules=[("RING4", 2)], kwargs=dict(cycles=["RING4"], cycle_tol=0.3), **base))
     out.append(dict(types=["RING5"], molecules=[("RING5", 1)], kwargs=dict(cycles=["RING5"], cycle_tol=0.3), bundle="axis+face18", devs=1, **base))
+    # rebuilt residues around a supplied one, with injected placement failures: rewinds whose window spans the supplied residue
+    out.append(dict(types=["MID7"], molecules=[("MID7", 1)], box=[4.0, 4.0, 4.0], grid=G1[:3], faults=True, devs=1,
+                    input=dict(kind="c", atoms=[(4, "K", "k")], coords=[(2.0, 0.5, 0.5)], box=[4.0, 4.0, 4.0]),
+                    kwargs=dict(nrewind=3, maxiter=2, build_res=["S"])))
     # polyply's own start grid (no -grid file) in a strongly non-cubic box: every grid point is tried as the first start
     out.append(dict(types=["CH3"], molecules=[("CH3", 1)], box=[2.0, 3.0, 4.0], grid=None, kwargs=dict(grid_spacing=1.0), own_grid=True))
     if tier == "thorough":
@@ -79,7 +83,7 @@ def cases(tier):
 
 
 def run_exec(sysdef, chooser):
-    return G.run_gen_coords(sysdef, chooser, bundle=sysdef.get("bundle", "axis6"))
+    return G.run_gen_coords(sysdef, chooser, bundle=sysdef.get("bundle", "axis6"), fault_steps=bool(sysdef.get("faults")))
 
 
 def judge(sysdef, res, choices):
@@ -93,6 +97,19 @@ def judge(sysdef, res, choices):
             viols.append(dict(assertion=assertion, tags=tags, message=msg + f" | choices={choices}", case=case1, detail={}))
     if res["exc"] is not None:
         viols.append(crash_violation(res["exc"], case1, assertion="building-does-not-crash"))
+    elif not res["horizon"] and final is not None:
+        # the positions the build ends with: every residue of every molecule finite and inside the box
+        box = np.array(sysdef["box"])
+        for (m, k), p in sorted(final["pos"].items()):
+            if p is None or not np.all(np.isfinite(p)) or np.any(np.asarray(p) < -1e-9) or np.any(np.asarray(p) >= box + 1e-9):
+                viols.append(dict(assertion="inside-the-box", tags=["final-position"], message=f"residue {(m, k)} ends at {p} (box {box.tolist()}) | choices={choices}",
+                                  case=case1, detail={}))
+        layout = O.mol_layout(sysdef)
+        for m, (name, n, adj, tdef) in enumerate(layout):
+            for k in range(n):
+                if (m, k) not in final["pos"]:
+                    viols.append(dict(assertion="inside-the-box", tags=["final-position"], message=f"residue {(m, k)} has no position at the end | choices={choices}",
+                                      case=case1, detail={}))
     return viols, final
 
 
@@ -104,6 +121,8 @@ def run_case(case):
         return dict(evals=1, keys=[], violations=v, stats={})
     d = sysdef.get("devs") or (2 if case["tier"] == "quick" else 3)
     bounds = {"vec": d, "grid": 1, "*": d}
+    if sysdef.get("faults"):
+        bounds = {"fault": 2, "vec": 0, "grid": 0, "*": 2}
     evals, keys, viols, traces, ntrans = 0, set(), [], set(), 0
     stats = dict(executions=0, horizon_cuts=0, natural_rejections=0, boundary_crossings=0, unowned_random_draws=0, adds_checked=0)
     first = None
